@@ -39,12 +39,13 @@ const (
 	OpRst
 	OpPriority
 	OpPush
+	OpWU // WINDOW_UPDATE scripted in the sender's list (early grant)
 	OpSettings
 	OpPing
 	OpGoAway
 )
 
-var opNames = [...]string{"HEADERS", "DATA", "RST_STREAM", "PRIORITY", "PUSH_PROMISE", "SETTINGS", "PING", "GOAWAY"}
+var opNames = [...]string{"HEADERS", "DATA", "RST_STREAM", "PRIORITY", "PUSH_PROMISE", "WINDOW_UPDATE", "SETTINGS", "PING", "GOAWAY"}
 
 // Op is one scripted frame (a header block with its CONTINUATIONs is one Op).
 type Op struct {
@@ -67,8 +68,10 @@ type Op struct {
 	Ping       [8]byte
 	Debug      []byte
 	Last       uint32
-	WaitHdr    bool // server: wait for the client's HEADERS on S first
-	WaitPP     bool // client: wait for the PUSH_PROMISE announcing S first
+	WaitHdr    bool     // server: wait for the client's HEADERS on S first
+	WaitPP     bool     // client: wait for the PUSH_PROMISE announcing S first
+	WaitOpen   []uint32 // GOAWAY: wait until the peer has opened / promised all these streams
+	Inc        uint32   // OpWU increment
 	Phase      int
 }
 
@@ -271,6 +274,17 @@ func Gen(rng *rand.Rand, pf Profile) *Plan {
 		p.WinClass[e] = cls
 		p.Gran[e] = pick(rng, "1B", "small", "small", "frame", "frame", "huge")
 	}
+	// scenario "MAX_FRAME_SIZE lowered while larger DATA frames are queued in the relay": the receiver
+	// `resplit` announces a large MAX_FRAME_SIZE, the sender uses frames above 16 384, the receiver's
+	// window (never replenished) holds some of them back, and after phase 0 the receiver lowers
+	// MAX_FRAME_SIZE without draining first. C08's clauses do not depend on when the relay applies
+	// the new size, so this is sound for C08 (C09 keeps the drained rule for its frame-size clause).
+	resplit := -1
+	if !c09 && rng.Intn(8) == 0 {
+		resplit = rng.Intn(2)
+		p.WinClass[resplit] = pick(rng, "default", "default", "connlimited")
+		nPh = 2 // everything is sent in phase 0; phase 1 only opens the windows after the lowering
+	}
 	raise, lower := false, false
 	for e := 0; e < 2; e++ {
 		iws[e] = make([]int64, nPh)
@@ -306,6 +320,9 @@ func Gen(rng *rand.Rand, pf Profile) *Plan {
 		if rng.Intn(4) == 0 {
 			m = []int64{16385, 32768, 65536, 1 << 20}[rng.Intn(4)]
 		}
+		if e == resplit {
+			m = []int64{32768, 65536, 1 << 20}[rng.Intn(3)]
+		}
 		h := int64(-1)
 		if !c09 && rng.Intn(3) == 0 {
 			h = []int64{0, 64, 256, 4096, 65536}[rng.Intn(5)]
@@ -326,7 +343,7 @@ func Gen(rng *rand.Rand, pf Profile) *Plan {
 				p.addChange(ph, Change{E: e, ID: http2.SettingInitialWindowSize, Val: uint32(nv)}, nPh)
 				v = nv
 				raise = true
-			} else if chg < lim && p.WinClass[e] != "connlimited" {
+			} else if chg < lim && p.WinClass[e] != "connlimited" && !(e == resplit && ph == 0) {
 				var nv int64
 				if rng.Intn(2) == 0 {
 					nv = v*2 + int64(rng.Intn(70000))
@@ -349,7 +366,12 @@ func Gen(rng *rand.Rand, pf Profile) *Plan {
 					v = nv
 				}
 			}
-			if rng.Intn(100) < lim/2 {
+			if e == resplit && ph == 0 {
+				nm := []int64{16384, 16384, 20000}[rng.Intn(3)]
+				lower = true
+				p.addChange(ph, Change{E: e, ID: http2.SettingMaxFrameSize, Val: uint32(nm), Lower: true, NoDrain: true}, nPh)
+				m = nm
+			} else if rng.Intn(100) < lim/2 {
 				nm := []int64{16384, 20000, 32768, 1 << 20}[rng.Intn(4)]
 				if nm != m {
 					if nm < m {
@@ -396,7 +418,7 @@ func Gen(rng *rand.Rand, pf Profile) *Plan {
 		}
 		rng.Shuffle(len(st), func(i, j int) { st[i], st[j] = st[j], st[i] })
 		p.Init[e].Settings = st
-		p.BigFrames[e] = rng.Intn(2) == 0
+		p.BigFrames[e] = rng.Intn(2) == 0 || resplit == 1-e
 	}
 	switch {
 	case raise && lower:
@@ -445,10 +467,20 @@ func Gen(rng *rand.Rand, pf Profile) *Plan {
 				budget = 262144 / K
 			}
 		}
+		big := resplit == 1-e
+		if big {
+			n = 4 + rng.Intn(6)
+			if budget < 262144/K {
+				budget = 262144 / K
+			}
+		}
 		for i := 0; i < n && budget >= 0; i++ {
 			sz := dataSize(rng)
 			if heavy && rng.Intn(10) < 7 {
 				sz = 16384
+			}
+			if big && rng.Intn(10) < 6 {
+				sz = 16385 + rng.Intn(16384)
 			}
 			if p.BigFrames[e] && rng.Intn(6) == 0 {
 				sz = 16385 + rng.Intn(16000)
@@ -497,7 +529,11 @@ func Gen(rng *rand.Rand, pf Profile) *Plan {
 		for last >= 0 && ops[last].K != OpData {
 			last--
 		}
-		switch x := rng.Intn(10); {
+		x := rng.Intn(10)
+		if resplit == 1-e && x < 7 {
+			x = 0 // END_STREAM on the (possibly large) last DATA frame
+		}
+		switch {
 		case x < 3 && last >= 0 && last == len(ops)-1:
 			ops[last].End = true
 		case x < 6:
@@ -526,6 +562,12 @@ func Gen(rng *rand.Rand, pf Profile) *Plan {
 		noBody := rng.Intn(5) == 0 && !c09
 		h := genHeaders(ct, "req", false)
 		ops = append(ops, h)
+		if rng.Intn(6) == 0 {
+			// early grant: stream-level WINDOW_UPDATE right after the request HEADERS, before anything
+			// has travelled in the opposite direction on this stream (as curl/nghttp2 do); 2^30 covers
+			// any body, so the final ample-credit step grants nothing more on the stream
+			ops = append(ops, &Op{K: OpWU, T: ct, Inc: []uint32{1 << 30, 1 << 30, uint32(70000 + rng.Intn(1<<20))}[rng.Intn(3)]})
+		}
 		if noBody && sp.kind != 2 && rng.Intn(2) == 0 {
 			h.End = true
 		} else {
@@ -772,6 +814,20 @@ func Gen(rng *rand.Rand, pf Profile) *Plan {
 			ppPhase[o.PT] = ph
 		}
 	}
+	if resplit >= 0 {
+		for _, o := range cl {
+			o.Phase = 0
+		}
+		for _, o := range sv {
+			o.Phase = 0
+		}
+		for k := range openPhase {
+			openPhase[k] = 0
+		}
+		for k := range ppPhase {
+			ppPhase[k] = 0
+		}
+	}
 	// client ops on promised streams
 	for _, sp := range sps {
 		for j, cops := range sp.clPush {
@@ -779,26 +835,6 @@ func Gen(rng *rand.Rand, pf Profile) *Plan {
 			for _, o := range cops {
 				o.Phase = ppPhase[pt] + rng.Intn(nPh-ppPhase[pt])
 				cl = append(cl, o) // placed at the end of its phase below
-			}
-		}
-	}
-	// GOAWAY last
-	for e := 0; e < 2; e++ {
-		if !c09 && rng.Intn(4) == 0 {
-			o := &Op{K: OpGoAway, Code: uint32(rng.Intn(14)), Phase: nPh - 1}
-			if e == 0 {
-				o.Last = nextP - 2
-			} else {
-				o.Last = next - 2
-				if next < 2 {
-					o.Last = 0
-				}
-			}
-			o.Debug = []byte(randString(rng, rng.Intn(40)))
-			if e == 0 {
-				cl = append(cl, o)
-			} else {
-				sv = append(sv, o)
 			}
 		}
 	}
@@ -818,6 +854,51 @@ func Gen(rng *rand.Rand, pf Profile) *Plan {
 			}
 			p.Phases[o.Phase].Ops[e] = append(p.Phases[o.Phase].Ops[e], o)
 		}
+	}
+
+	// GOAWAY somewhere in the last phase (frames on existing streams may follow it). It is written
+	// only after the peer has opened / promised all its streams, so that nobody opens a stream after
+	// receiving GOAWAY; debug data of varied lengths.
+	for e := 0; e < 2; e++ {
+		if c09 || rng.Intn(3) != 0 {
+			continue
+		}
+		o := &Op{K: OpGoAway, Code: uint32(rng.Intn(14)), Phase: nPh - 1}
+		switch rng.Intn(4) {
+		case 0:
+		case 1:
+			o.Debug = []byte(randString(rng, 1+rng.Intn(16)))
+		default:
+			o.Debug = []byte(randString(rng, 17+rng.Intn(200)))
+		}
+		list := p.Phases[nPh-1].Ops[e]
+		min := 0
+		if e == 0 {
+			o.Last = nextP - 2
+			for t := range ids {
+				if id := ids[t]; id%2 == 0 {
+					o.WaitOpen = append(o.WaitOpen, id)
+				}
+			}
+			for i, x := range list {
+				if x.K == OpHeaders {
+					min = i + 1 // after the client's last opening HEADERS (the server's promises wait for them)
+				}
+			}
+		} else {
+			o.Last = next - 2
+			for t := range ids {
+				if id := ids[t]; id%2 == 1 {
+					o.WaitOpen = append(o.WaitOpen, id)
+				}
+			}
+		}
+		at := min + rng.Intn(len(list)-min+1)
+		for at > 0 && at < len(list) && list[at-1].K == OpPriority && list[at].K == OpHeaders && list[at-1].S == list[at].S {
+			at++
+		}
+		list = append(list[:at], append([]*Op{o}, list[at:]...)...)
+		p.Phases[nPh-1].Ops[e] = list
 	}
 
 	// ---- clamp DATA sizes to the window/frame caps of their phase -----------
@@ -900,6 +981,9 @@ func Gen(rng *rand.Rand, pf Profile) *Plan {
 			if c09 {
 				ns = rng.Intn(9)
 			}
+			if x == resplit && phi == 0 {
+				ns = 0 // the window stays shut until MAX_FRAME_SIZE has been lowered
+			}
 			var steps []Step
 			for i := 0; i < ns && n > 0; i++ {
 				st := Step{After: rng.Intn(n + 1), Act: "wu", Rep: 1}
@@ -938,6 +1022,9 @@ func Gen(rng *rand.Rand, pf Profile) *Plan {
 			phs.Ctl[x] = steps
 			phs.EndExact[x] = c09 && rng.Intn(2) == 0
 			phs.EndAmple[x] = lastPhase || rng.Intn(2) == 0
+			if x == resplit && phi == 0 {
+				phs.EndAmple[x] = false
+			}
 			for _, o := range phs.Ops[x] {
 				if o.WaitPP {
 					phs.EndAmple[x] = true // the promise may sit behind blocked DATA of its parent
